@@ -191,22 +191,22 @@ structure DecLit where
   fracDigits : List Nat
 deriving DecidableEq, Repr
 
-def parseDecLit (s0 : List Char) : Option DecLit :=
-  let s := strip s0
-  let (neg, hasSign, body) := match s with
-    | '-' :: r => (true, true, r)
-    | '+' :: r => (false, true, r)
-    | r => (false, false, r)
-  let ip := body.takeWhile isDigit
-  let rest := body.dropWhile isDigit
-  match rest with
-  | [] => if ip.isEmpty then none else
-      some ⟨neg, hasSign, ip.map charDigit, false, []⟩
+/-- the part after the sign: digits, optionally `.` and digits, at least one digit in all -/
+def parseBody (neg hasSign : Bool) (body : List Char) : Option DecLit :=
+  match body.dropWhile isDigit with
+  | [] => if (body.takeWhile isDigit).isEmpty then none else
+      some ⟨neg, hasSign, (body.takeWhile isDigit).map charDigit, false, []⟩
   | '.' :: fr =>
-      if fr.all isDigit && !(ip.isEmpty && fr.isEmpty) then
-        some ⟨neg, hasSign, ip.map charDigit, true, fr.map charDigit⟩
+      if fr.all isDigit && !((body.takeWhile isDigit).isEmpty && fr.isEmpty) then
+        some ⟨neg, hasSign, (body.takeWhile isDigit).map charDigit, true, fr.map charDigit⟩
       else none
   | _ => none
+
+def parseDecLit (s0 : List Char) : Option DecLit :=
+  match strip s0 with
+  | '-' :: r => parseBody true true r
+  | '+' :: r => parseBody false true r
+  | r => parseBody false false r
 
 /-- exact value of a literal -/
 def DecLit.toRat (d : DecLit) : Rat :=
@@ -238,7 +238,7 @@ def arange (start stop step : Rat) : List Rat :=
 
 /-- `np.minimum(np.arange(min, max + 1e-9*step, step), max)` -/
 def rangeValues (mn mx step : Rat) : List Rat :=
-  (arange mn (mx + eps * step) step).map fun v => min v mx
+  (arange mn (mx + eps * step) step).map fun v => if v ≤ mx then v else mx
 
 def defaultStep : Rat := 1 / 200   -- 0.005
 
@@ -311,6 +311,14 @@ structure Direction where
   ry : Rat
   rz : Rat
 deriving DecidableEq, Repr
+
+/-- the component of the direction along the bias axis -/
+def Direction.along (d : Direction) (pauli : Char) : Rat :=
+  if pauli = 'X' then d.rx else if pauli = 'Y' then d.ry else d.rz
+
+/-- the sum of the two other components -/
+def Direction.across (d : Direction) (pauli : Char) : Rat :=
+  if pauli = 'X' then d.ry + d.rz else if pauli = 'Y' then d.rx + d.rz else d.rx + d.ry
 
 /-- `get_direction_from_bias_ratio(pauli, eta)`; `none` = the empty dict returned for a
     letter other than X, Y, Z (click only admits these three) -/
